@@ -1,4 +1,6 @@
 import PbBss.Proofs.JitterProof
+import PbBss.Proofs.DhtvDomain
+import PbBss.Proofs.DhtvShipped
 import PbBss.Proofs.PlanProof
 /-! # C16 — blind alignment restores a frequency-consistent class order
 
@@ -9,7 +11,9 @@ What is a theorem: plan coverage for every configuration with `shift ≤ width`;
 accumulated net reordering (DHTV and adjacent-bin chain); identity on consistent masks; the greedy aligner
 restores ONE class order for every permutation field under adjacent-bin row dominance, and the stated analytic
 domain (patterns with pairwise cosine ≤ 0.1, jitter ≤ 10 %) implies that dominance for the `cos` metric.
-What is NOT a theorem (search only): DHTV convergence from a 70 % majority through the interleaved segments. -/
+DHTV (cos / multiply): from a majority in the first segment and a two-thirds overlap of every later segment with
+the already processed band, every processed bin ends in ONE class order (`dhtv_majority`, `dhtv_restores_in_domain`).
+Not a theorem: the same for the `euclidean` metric (search only). -/
 namespace PbBss.C16
 open PbBss PbBss.Align PbBss.Plan Function
 
@@ -117,6 +121,97 @@ theorem greedyAligner_consistent_in_domain {K F T : Nat} (tiny : ℝ) (pat : Fin
     applyMapping (at3 (permuted base π)) (greedyAligner tiny .cos (permuted base π)) k f t
       = at3 base (permAtBin π 0 k) f t :=
   greedyAligner_restores tiny .cos base π (jitter_cos_dominant tiny pat base hpat hn hcos hj1 hj2 ht) k f t
+
+/-! ### DHTV from a first-segment majority -/
+
+/-- **DHTV, abstract form** (metrics `cos`, `multiply`; any assignment algorithm; any plan): class patterns `G` with
+same-class inner products ≥ a, different-class ≤ b, all in [0,1]; start features in the per-bin orders `π`; the bins
+`Al₀` share the order `σ₀`; every plan segment has ≥ 1 pass and `|S| < |aligned ∩ S| · (a − b + 1)` (`PlanOk`).
+Then in every bin of `Al₀` and of every plan segment the converged features are the patterns in the order `σ₀`. -/
+theorem dhtv_majority {K F T : Nat} (G : Fin K → Fin F → Fin T → ℝ) (a b : ℝ) (hG : PatHyp G a b)
+    (tiny : ℝ) (ht : 0 < tiny) (metric : Metric) (hm : metric = .cos ∨ metric = .multiply) (algo : Algo)
+    (plan : List (Nat × Nat × Nat)) (mask : Tab3 K F T ℝ) (π : Fin F → Equiv.Perm (Fin K))
+    (σ0 : Equiv.Perm (Fin K)) (Al0 : Finset (Fin F))
+    (hstart : GlobalState G (dhtvStart tiny metric mask) π) (hAl : ∀ g ∈ Al0, π g = σ0)
+    (hplan : PlanOk F a b plan Al0) :
+    ∀ f ∈ alignedAfter F plan Al0, ∀ k t, at3 (dhtv tiny metric algo plan mask).features k f t = G (σ0 k) f t :=
+  Align.dhtv_majority G a b hG tiny ht metric hm algo plan mask π σ0 Al0 hstart hAl hplan
+
+/-- the per-segment hypothesis holds whenever at least two thirds of the segment's `n` bins are aligned (`m` of them),
+for the constants of the jitter domain — 70 % in the first segment is more than that -/
+theorem planOk_step_of_two_thirds (n m : Nat) (hn : 0 < n) (h : 2 * n ≤ 3 * m) :
+    (n : ℝ) < m * ((0.81 / 1.21 : ℝ) - 1.21 / 0.81 * 0.1 + 1) := Align.planOk_step_of_two_thirds n m hn h
+
+/-- **DHTV in the stated domain** (`cos` metric): a per-frequency permutation `π` of a consistent mask whose class
+patterns are non-negative with pairwise cosine ≤ 0.1 and jitter ≤ 10 %; a set `Al₀` of bins sharing the order `σ₀`;
+a plan satisfying `PlanOk` for the domain constants.  Then the aligned mask has the order `σ₀` in every bin of
+`alignedAfter` (= `Al₀` and every plan segment; all bins when the plan covers them, `plan_covers`), and the net
+reordering `π_f ∘ mapping[:, f]` is the constant `σ₀`. -/
+theorem dhtv_restores_in_domain {K F T : Nat} (tiny : ℝ) (ht : 0 < tiny) (pat : Fin K → Fin T → ℝ)
+    (base : Tab3 K F T ℝ) (hpat : ∀ k t, 0 ≤ pat k t) (hn : ∀ k, 0 < nrm (pat k))
+    (hcos : ∀ k k', k' ≠ k → (∑ t, pat k' t * pat k t) ≤ 0.1 * (nrm (pat k') * nrm (pat k)))
+    (hj1 : ∀ k f t, 0.9 * pat k t ≤ at3 base k f t) (hj2 : ∀ k f t, at3 base k f t ≤ 1.1 * pat k t)
+    (htn : ∀ k f, tiny ≤ nrm (fun t => at3 base k f t))
+    (algo : Algo) (plan : List (Nat × Nat × Nat)) (π : Fin F → Equiv.Perm (Fin K)) (σ0 : Equiv.Perm (Fin K))
+    (Al0 : Finset (Fin F)) (hAl : ∀ g ∈ Al0, π g = σ0)
+    (hplan : PlanOk F (0.81 / 1.21) (1.21 / 0.81 * 0.1) plan Al0) :
+    ∀ f ∈ alignedAfter F plan Al0, ∀ k,
+      (∀ t, at3 (dhtv tiny .cos algo plan (permuted base π)).features k f t = normRows tiny base (σ0 k) f t) ∧
+      π f (at2 (dhtv tiny .cos algo plan (permuted base π)).mapping k f) = σ0 k := by
+  have hG := patHyp_of_jitter tiny ht pat base hpat hn hcos hj1 hj2 htn
+  have hmain := Align.dhtv_majority (normRows tiny base) _ _ hG tiny ht .cos (Or.inl rfl) algo plan
+    (permuted base π) π σ0 Al0 (globalState_start_cos tiny base π) hAl hplan
+  intro f hf k
+  refine ⟨hmain f hf k, ?_⟩
+  -- the converged features are also the start features reordered by the mapping
+  have hinv := (dhtv_inv tiny .cos algo plan (permuted base π)).2 k f
+  have hstart := globalState_start_cos tiny base π
+  set m := at2 (dhtv tiny .cos algo plan (permuted base π)).mapping k f with hmdef
+  have hrows : normRows tiny base (π f m) f = normRows tiny base (σ0 k) f := by
+    funext t
+    rw [← hstart f m t, ← hinv t, hmain f hf k t]
+  -- different classes have different normalised rows (same-class inner product ≥ a > b ≥ different-class)
+  by_contra hne
+  have h1 := hG.same (σ0 k) f f
+  have h2 := hG.diff (π f m) (σ0 k) f f hne
+  rw [hrows] at h2
+  norm_num at h1 h2
+  linarith
+
+/-- the premise holds for a plan whose first segment is `[lo₀, hi₀)` with `n₀` bins as soon as at least 70 % of
+those bins form the majority `Al₀` and the Boolean overlap check `planOkB` passes for the remaining segments -/
+theorem planOk_of_first_majority {F : Nat} (it lo hi n0 : Nat) (rest : List (Nat × Nat × Nat))
+    (hit : 0 < it) (hlen : (segBins F lo hi).length = n0) (hn0 : 0 < n0)
+    (hrest : planOkB F rest (fun f => decide (lo ≤ f.val ∧ f.val < hi)) = true)
+    (Al0 : Finset (Fin F)) (hsub : Al0 ⊆ segSet F lo hi) (hmaj : 7 * n0 ≤ 10 * Al0.card) :
+    PlanOk F (0.81 / 1.21) (1.21 / 0.81 * 0.1) ((it, lo, hi) :: rest) Al0 := by
+  refine ⟨hit, ?_, ?_⟩
+  · show ((segSet F lo hi).card : ℝ) < _
+    rw [Finset.inter_eq_left.mpr hsub, ← segBins_length_eq_card, hlen]
+    exact Align.planOk_step_of_two_thirds n0 Al0.card hn0 (by omega)
+  · apply planOk_mono F _ _ (by norm_num) rest (segSet F lo hi) _ Finset.subset_union_right
+    exact planOkB_sound F rest _ _ (fun f => by simp [mem_segSet]) hrest
+
+/-- **shipped default, STFT size 512** (F = 257): if at least 70 of the 100 bins of the first segment share one
+order, the overlap premise holds for the whole plan and every bin ends up processed -/
+theorem shipped_512_planOk (Al0 : Finset (Fin 257)) (hsub : Al0 ⊆ segSet 257 70 170) (hmaj : 70 ≤ Al0.card) :
+    PlanOk 257 (0.81 / 1.21) (1.21 / 0.81 * 0.1) plan512 Al0 ∧ ∀ f, f ∈ alignedAfter 257 plan512 Al0 := by
+  refine ⟨?_, fun f => coversB_sound 257 plan512 Al0 plan512_covers f⟩
+  rw [plan512_head]
+  exact planOk_of_first_majority 20 70 170 100 _ (by decide) len_seg_512 (by decide) plan512_tail_ok Al0 hsub
+    (by omega)
+
+/-- **shipped default, STFT size 1024** (F = 513) -/
+theorem shipped_1024_planOk (Al0 : Finset (Fin 513)) (hsub : Al0 ⊆ segSet 513 100 200) (hmaj : 70 ≤ Al0.card) :
+    PlanOk 513 (0.81 / 1.21) (1.21 / 0.81 * 0.1) plan1024 Al0 ∧ ∀ f, f ∈ alignedAfter 513 plan1024 Al0 := by
+  refine ⟨?_, fun f => coversB_sound 513 plan1024 Al0 plan1024_covers f⟩
+  rw [plan1024_head]
+  exact planOk_of_first_majority 20 100 200 100 _ (by decide) len_seg_1024 (by decide) plan1024_tail_ok Al0 hsub
+    (by omega)
+
+/-- the plan the theorems talk about is the documented one of `from_stft_size(512)` -/
+theorem shipped_512_plan : plan512 = [(20, 70, 170), (2, 90, 190), (2, 50, 150), (2, 110, 210), (2, 30, 130),
+    (2, 130, 230), (2, 0, 110), (2, 150, 257)] := plan512_eq
 
 /-! ### non-vacuity: the shipped 512 default satisfies the plan hypotheses and is covered -/
 example : (⟨257, 70, 100, 20⟩ : Cfg).start + (⟨257, 70, 100, 20⟩ : Cfg).width ≤ 257 ∧ (0:Nat) < 20 ∧ 20 ≤ 100 := by decide
